@@ -896,6 +896,7 @@ func (v *FV) applyContract(fr *Frame, st *State, con *Contract, callee *ssa.Func
 		v.oblige("pre@call", lbl, pos, "precondition of "+short+": "+c.Text, st.reach, t)
 	}
 	pre := st.snap.clone()
+	topAtCall := v.define("topcall", "Int", v.topOf(pre))
 	// frame
 	if con.HasMod {
 		for _, m := range con.Modifies {
@@ -915,7 +916,7 @@ func (v *FV) applyContract(fr *Frame, st *State, con *Contract, callee *ssa.Func
 	}
 	results := v.freshResultsFor(st, sig.Results(), "r_"+mangle(short), con.Fresh)
 	bindResultNames(vars, sig, results)
-	env2 := &ExprEnv{v: v, vars: vars, snap: st.snap, old: pre, pkg: pkg, reach: st.reach, what: "contract of " + name}
+	env2 := &ExprEnv{v: v, vars: vars, snap: st.snap, old: pre, pkg: pkg, reach: st.reach, what: "contract of " + name, freshBase: topAtCall}
 	for _, c := range con.Ensures {
 		t, err := env2.EvalBool(c.Text)
 		if err != nil {
